@@ -130,6 +130,17 @@ impl<B> BlockCursor<B> {
     }
 }
 
+#[cfg(feature = "verif")]
+impl<B: Borrow<Block>> BlockCursor<B> {
+    /// Verification hook: `(FNV-1a hash of the decompressed block, in-block offset)`.
+    pub(crate) fn verif_state(&self) -> (u64, Option<usize>) {
+        let hash = self.block.borrow().buffer.iter().fold(0xcbf29ce484222325u64, |h, b| {
+            (h ^ *b as u64).wrapping_mul(0x100000001b3)
+        });
+        (hash, self.current_offset)
+    }
+}
+
 impl<B: Borrow<Block>> BlockCursor<B> {
     /// Returns the currently pointed key/value or `None` if the cursor hasn't been seeked yet.
     pub fn current(&self) -> Option<(&[u8], &[u8])> {
